@@ -601,8 +601,13 @@ namespace DFS
       return std::vector<int>{2, 1};
   }
 
-  std::vector<DFS::ImageFileFormat> make_candidate_list(const std::string& name)
+  std::vector<DFS::ImageFileFormat> make_candidate_list(const std::string& file_name)
   {
+    // The hints come from the extension of the image file itself, so
+    // ignore the additional .gz extension of a compressed image.
+    std::string name(file_name);
+    if (DFS::stringutil::ends_with(name, ".gz"))
+      name.erase(name.size() - 3);
     std::optional<DFS::Encoding> encoding_hint;
     std::optional<bool> interleaving_hint;
     std::optional<int> sides_hint;
